@@ -287,7 +287,7 @@ def raw_cases(ctx, replay):
             return
         cases = [[tuple(o) for o in replay["ops"]]]
     else:
-        cases = [gen_raw_ops(rng) for _ in range(ctx.n(1200, 12000))]
+        cases = [gen_raw_ops(rng) for _ in range(ctx.n(900, 12000))]
     terms, meta = [], []
     for ops in cases:
         polls, err, mops = run_raw_ops(ops)
@@ -677,7 +677,7 @@ def tuner_cases(ctx, replay, sim):
             return
         cases = [replay]
     else:
-        cases = [gen_tuner_case(rng, sim) for _ in range(ctx.n(500 if sim else 700, 6000 if sim else 9000))]
+        cases = [gen_tuner_case(rng, sim) for _ in range(ctx.n(400 if sim else 600, 6000 if sim else 9000))]
     runner = run_tuner_sim if sim else run_tuner_generic
     terms, meta = [], []
     for case in cases:
